@@ -171,7 +171,7 @@ def check(prop, tier, seed):
                 run.nontrivial.add(json.dumps(p["t"], sort_keys=True))
     run.sample({"src": srcs[0][:600], "type": groups[0][0]["t"], "predicted_tokens": groups[0][0]["tokens"]})
     # (C) deeper random types judged by TLC
-    deep = [random_type(rng, rng.randint(2, 5), False) for _ in range(400 if tier == "quick" else 6000)]
+    deep = [random_type(rng, rng.randint(2, 5), False) for _ in range(400 if tier == "quick" else 60000)]
     dgroups = [deep[i:i + per] for i in range(0, len(deep), per)]
     dsrcs = [grammar_for(g, rng) for g in dgroups]
     dresps = common.kv("gen", [{"id": i, "src": s, "want": ["rust"]} for i, s in enumerate(dsrcs)], timeout=1800)
@@ -202,7 +202,7 @@ def check(prop, tier, seed):
         elif j["ntokens"] >= 8:
             run.nontrivial.add("deep:%d" % j["id"])
     # type identity with rustc for a resolvable family
-    res_types = [random_type(rng, rng.randint(1, 4), True) for _ in range(60 if tier == "quick" else 600)]
+    res_types = [random_type(rng, rng.randint(1, 4), True) for _ in range(60 if tier == "quick" else 3000)]
     rgroups = [res_types[i:i + per] for i in range(0, len(res_types), per)]
     rsrcs = [grammar_for(g, rng) for g in rgroups]
     rresps = common.kv("gen", [{"id": i, "src": s, "want": ["rust"]} for i, s in enumerate(rsrcs)], timeout=1800)
